@@ -2,7 +2,7 @@
     bool, option, unit, prod, list, sumbool map to OCaml's; N/positive/nat/Z stay extracted datatypes).
     Separate extraction: one OCaml module per Coq module, so model names never clash. *)
 From Coq Require Import ExtrOcamlBasic NArith List.
-From XV Require Import Conc.Lts Conc.Ev Model.ChaseDefs Model.SeqlockDefs Model.LeftRightDefs Model.VyukovDefs Model.MsqDefs Model.TblDefs Model.HmlDefs Model.HmlItDefs Model.EbrDefs Model.HpDefs Model.VhmDefs Model.VhmItDefs.
+From XV Require Import Conc.Lts Conc.Ev Model.ChaseDefs Model.SeqlockDefs Model.LeftRightDefs Model.VyukovDefs Model.MsqDefs Model.TblDefs Model.HmlDefs Model.HmlItDefs Model.EbrDefs Model.HpDefs Model.VhmDefs Model.VhmItDefs Model.RamDefs Model.KfbDefs Model.QsbrDefs.
 Extraction Language OCaml.
 Separate Extraction Lts.run N.of_nat N.to_nat
   ChaseDefs.step ChaseDefs.init
@@ -16,4 +16,7 @@ Separate Extraction Lts.run N.of_nat N.to_nat
   EbrDefs.step EbrDefs.init
   HpDefs.step HpDefs.init
   VhmDefs.step VhmDefs.init
-  VhmItDefs.step VhmItDefs.init.
+  VhmItDefs.step VhmItDefs.init
+  RamDefs.step RamDefs.init
+  KfbDefs.step KfbDefs.init
+  QsbrDefs.step QsbrDefs.step_gen QsbrDefs.init.
